@@ -161,7 +161,7 @@ def gen_case(seed: int, prop: str, tier: str, kind: str | None = None) -> dict:
     # faults (namespace side) - 30% of the runs
     if rng.random() < 0.3:
         opts = {"vhdx": ["missing_parent", "eacces_parent", "corrupt_parent", "no_name", "missing_parent_twin"],
-                "vmdk": ["missing_parent", "eacces_parent", "empty_hint", "no_name"],
+                "vmdk": ["missing_parent", "eacces_parent", "empty_hint", "no_name", "damaged_descriptor"],
                 "hdd": ["missing_image", "eacces_parent"],
                 "qcow2": ["no_backing_arg", "allow_no_backing"], "qcow2snap": ["no_backing_arg", "allow_no_backing"] if case.get("raw_backing") else [],
                 "vdi": []}[kind]
@@ -374,6 +374,24 @@ def build(case: dict, world: World):
             expect_fail = True
         if fault == "no_name":
             expect_fail = True
+        if fault == "damaged_descriptor":
+            # a few bytes of the top layer's descriptor (which names the parent) are overwritten with bytes that are not UTF-8:
+            # whatever the reader then does, it may not present the child without its parent
+            tf = world.fs.files[top]
+            embedded_top = case["layers"][-1].get("embedded")
+            if n > 1:
+                if embedded_top:
+                    import struct as _st
+
+                    doff = _st.unpack("<Q", tf.pread(28, 8))[0] * 512
+                    txt = tf.pread(doff, 4096).split(b"\0", 1)[0]
+                else:
+                    doff, txt = 0, tf.pread(0, 1 << 16)
+                spot = txt.find(b"# The Disk Data Base")
+                spot = spot + 4 if spot >= 0 else max(0, len(txt) - 6)
+                tf.write(doff + spot, b"\xff\xfe\xc3")
+                world.faults_fired["damaged_descriptor"] += 1
+                expect_fail = True
 
         def open_fn(vi):
             from pathlib import Path
